@@ -136,13 +136,15 @@ def general_paths(n, max_arity=3):
     """every sequence of steps with arity 1..max_arity over linear positions,
     including incomplete ones (prefix-closed set, emitted at every length)"""
 
-    def rec(m, depth):
+    def rec(m, singles):
         yield ()
-        if m == 1 or depth == 0:
+        if m == 1:
             return
         for k in range(1, min(max_arity, m) + 1):
+            if k == 1 and singles == 0:
+                continue
             for con in itertools.combinations(range(m), k):
-                for tail in rec(m - k + 1, depth - (1 if k == 1 else 0)):
+                for tail in rec(m - k + 1, singles - (1 if k == 1 else 0)):
                     yield (con,) + tail
 
     # allow at most one arity-1 (no-op) step per path to keep it finite
